@@ -36,6 +36,9 @@ def check(ctx):
                              "replay_how": "echo '<input>' | /verif/harness/target/debug/oq3-run tree   (field errors= must be empty)"})
         else:
             nontriv += 1
+    # accepted programs stay accepted when they reach the parser through real include files / the file entry point
+    from . import incwrap as IW
+    IW.through_entry_points(ctx, "C04", [r["case"]["text"] for r in recs if not r["panic"] and not split_mismatch(r["cst"])[0]], failures)
     failures.sort(key=lambda f: len(f["case"]))
     C.decide(ctx, failures, C.load_findings("C04"))
     ctx.coverage.update({
